@@ -101,6 +101,12 @@ var propFlavour = map[string]string{
 	"C20": "P",
 }
 
+// extraFlavour lists properties that are additionally explored in a second
+// build flavour (a third of the budget).
+var extraFlavour = map[string]string{
+	"C13": "P",
+}
+
 func goEnv() []string {
 	env := os.Environ()
 	env = append(env, "GOFLAGS=-mod=mod", "GOPROXY=off", "GOSUMDB=off", "GOTOOLCHAIN=local", "CGO_ENABLED=1")
@@ -618,7 +624,15 @@ func check(prop, tier string, seed int64, replay string, budget time.Duration, w
 			fmt.Println("HARNESS-ERROR: cannot parse replay file:", err)
 			return 2
 		}
-		r, code, stderr := singleRun(bin, prop, &rec, len(rec.Draws) > 0, outDir, "replay")
+		rbin := bin
+		if rec.Flavour != "" && rec.Flavour != flavourOf(prop) {
+			rbin, err = build(rec.Flavour, false)
+			if err != nil {
+				fmt.Println("HARNESS-ERROR:", err)
+				return 2
+			}
+		}
+		r, code, stderr := singleRun(rbin, prop, &rec, len(rec.Draws) > 0, outDir, "replay")
 		if r == nil {
 			if code == 0 {
 				fmt.Printf("replay of %s: no violation (recorded: %s)\n", replay, rec.Key())
@@ -645,76 +659,91 @@ func check(prop, tier string, seed int64, replay string, budget time.Duration, w
 	keyCount := map[string]int{} // violations per key (distinct keys bound the search)
 	var harnessErr []string
 	var wg sync.WaitGroup
-	deadline := time.Now().Add(budget)
-	for wi := 0; wi < workers; wi++ {
-		wg.Add(1)
-		go func(wi int) {
-			defer wg.Done()
-			from := wi
-			name := fmt.Sprintf("w%d", wi)
-			for restarts := 0; restarts < 400; restarts++ {
-				left := time.Until(deadline)
-				if left <= 0 {
-					return
-				}
-				env := []string{"VERIF_PROP=" + prop, "VERIF_SEED=" + strconv.FormatInt(seed, 10),
-					"VERIF_RUN_FROM=" + strconv.Itoa(from), "VERIF_RUN_TO=" + strconv.Itoa(1<<30),
-					"VERIF_RUN_STRIDE=" + strconv.Itoa(workers), "VERIF_TIER=" + tier,
-					"VERIF_BUDGET_MS=" + strconv.FormatInt(left.Milliseconds(), 10)}
-				o := runWorker(bin, env, outDir, name, left+10*time.Minute)
-				if o.exit == 0 {
-					return
-				}
-				if o.exit == 3 && o.viol != nil {
+	explore := func(bin, prefix, flavour string, budget time.Duration) {
+		deadline := time.Now().Add(budget)
+		for wi := 0; wi < workers; wi++ {
+			wg.Add(1)
+			go func(wi int) {
+				defer wg.Done()
+				from := wi
+				name := fmt.Sprintf("%s%d", prefix, wi)
+				for restarts := 0; restarts < 400; restarts++ {
+					left := time.Until(deadline)
+					if left <= 0 {
+						return
+					}
+					env := []string{"VERIF_PROP=" + prop, "VERIF_SEED=" + strconv.FormatInt(seed, 10),
+						"VERIF_RUN_FROM=" + strconv.Itoa(from), "VERIF_RUN_TO=" + strconv.Itoa(1<<30),
+						"VERIF_RUN_STRIDE=" + strconv.Itoa(workers), "VERIF_TIER=" + tier,
+						"VERIF_BUDGET_MS=" + strconv.FormatInt(left.Milliseconds(), 10)}
+					o := runWorker(bin, env, outDir, name, left+10*time.Minute)
+					if o.exit == 0 {
+						return
+					}
+					if o.exit == 3 && o.viol != nil {
+						mu.Lock()
+						keyCount[o.viol.Key()]++
+						if keyCount[o.viol.Key()] <= 3 {
+							viols = append(viols, o.viol)
+						}
+						nk := len(keyCount)
+						mu.Unlock()
+						if nk >= 12 {
+							return
+						}
+						from = o.viol.Run + workers
+						continue
+					}
+					if o.exit == 4 || o.exit >= 90 {
+						mu.Lock()
+						harnessErr = append(harnessErr, fmt.Sprintf("worker %s exit %d:\n%s", name, o.exit, lastN(o.stderr, 3000)))
+						mu.Unlock()
+						return
+					}
+					// The process died (runtime panic on a goroutine of the
+					// system under test). Re-run that run alone to confirm.
+					rec := &ViolationRecord{Property: prop, Flavour: flavour, Seed: seed, Run: o.lastRun, Tier: tier}
+					r, code, stderr := singleRunSeeded(bin, prop, rec, outDir, name+"-confirm")
+					if r == nil {
+						mu.Lock()
+						harnessErr = append(harnessErr, fmt.Sprintf("worker %s died in run %d (exit %d) but the run alone ended with code %d:\n%s\n--- first death:\n%s", name, o.lastRun, o.exit, code, lastN(stderr, 2000), lastN(o.stderr, 3000)))
+						mu.Unlock()
+						return
+					}
 					mu.Lock()
-					keyCount[o.viol.Key()]++
-					if keyCount[o.viol.Key()] <= 3 {
-						viols = append(viols, o.viol)
+					keyCount[r.Key()]++
+					if keyCount[r.Key()] <= 3 {
+						viols = append(viols, r)
 					}
 					nk := len(keyCount)
 					mu.Unlock()
 					if nk >= 12 {
 						return
 					}
-					from = o.viol.Run + workers
-					continue
+					from = o.lastRun + workers
 				}
-				if o.exit == 4 || o.exit >= 90 {
-					mu.Lock()
-					harnessErr = append(harnessErr, fmt.Sprintf("worker %s exit %d:\n%s", name, o.exit, lastN(o.stderr, 3000)))
-					mu.Unlock()
-					return
-				}
-				// The process died (runtime panic on a goroutine of the
-				// system under test). Re-run that run alone to confirm.
-				rec := &ViolationRecord{Property: prop, Flavour: flavourOf(prop), Seed: seed, Run: o.lastRun, Tier: tier}
-				r, code, stderr := singleRunSeeded(bin, prop, rec, outDir, name+"-confirm")
-				if r == nil {
-					mu.Lock()
-					harnessErr = append(harnessErr, fmt.Sprintf("worker %s died in run %d (exit %d) but the run alone ended with code %d:\n%s\n--- first death:\n%s", name, o.lastRun, o.exit, code, lastN(stderr, 2000), lastN(o.stderr, 3000)))
-					mu.Unlock()
-					return
-				}
-				mu.Lock()
-				keyCount[r.Key()]++
-				if keyCount[r.Key()] <= 3 {
-					viols = append(viols, r)
-				}
-				nk := len(keyCount)
-				mu.Unlock()
-				if nk >= 12 {
-					return
-				}
-				from = o.lastRun + workers
-			}
-		}(wi)
+			}(wi)
+		}
+		wg.Wait()
 	}
-	wg.Wait()
+	explore(bin, "w", flavourOf(prop), budget)
+	// Supplementary flavour (e.g. the production-constant build for code that
+	// only does real work there).
+	binByFlavour := map[string]string{flavourOf(prop): bin}
+	if xf, ok := extraFlavour[prop]; ok && os.Getenv("VERIF_SKIP_EXTRA_FLAVOUR") == "" {
+		xbin, err := build(xf, false)
+		if err != nil {
+			fmt.Println("HARNESS-ERROR:", err)
+			return 2
+		}
+		binByFlavour[xf] = xbin
+		explore(xbin, "x", xf, budget/3)
+	}
 	exploreWall := time.Since(t0)
 
 	// Phase 2: aggregate results.
 	var results []RunResult
-	files, _ := filepath.Glob(filepath.Join(outDir, "results-w*.jsonl"))
+	files, _ := filepath.Glob(filepath.Join(outDir, "results-*.jsonl"))
 	for _, f := range files {
 		b, _ := os.ReadFile(f)
 		for _, line := range bytes.Split(b, []byte("\n")) {
@@ -765,12 +794,16 @@ func check(prop, tier string, seed int64, replay string, budget time.Duration, w
 		if isKnown {
 			minBudget = 3 * time.Second // a recorded finding: a token minimisation is enough
 		}
-		mv := minimise(bin, prop, v, outDir, minBudget, workers)
+		vbin := bin
+		if b, ok := binByFlavour[v.Flavour]; ok {
+			vbin = b
+		}
+		mv := minimise(vbin, prop, v, outDir, minBudget, workers)
 		os.MkdirAll(filepath.Join(artifactDir, "replays"), 0755)
 		rp := filepath.Join(artifactDir, "replays", fmt.Sprintf("%s-%d-%d.json", prop, v.Seed, v.Run))
 		mv.ReplayCmd = fmt.Sprintf("bin/check %s --replay %s", prop, rp)
 		// Confirm in a fresh process, exactly.
-		r, code, stderr := singleRun(bin, prop, mv, len(mv.Draws) > 0, outDir, "confirm")
+		r, code, stderr := singleRun(vbin, prop, mv, len(mv.Draws) > 0, outDir, "confirm")
 		if r == nil || r.Key() != mv.Key() {
 			fmt.Printf("HARNESS-ERROR: violation %s (seed %d run %d) did not reproduce from its replay file (code %d)\n%s\n", mv.Key(), v.Seed, v.Run, code, lastN(stderr, 2000))
 			return 2
